@@ -207,10 +207,16 @@ def classify(diags, meta):
                 rng = f"{seen_body[1]}" if seen_body[1] == seen_body[2] else f"{seen_body[1]}-{seen_body[2]}"
                 where.append(f"{seen_body[0]}:{rng} in {seen_body[3]} ({sp.get('label')})")
         if body_fn and not tags and not dep_tags:
-            # built-in obligation (overflow, index, slice, callee precondition w/o tags, assert)
+            # built-in obligation (overflow, index, slice, callee precondition w/o tags, assert): the function
+            # may panic or use an assumed model outside its precondition, and Verus ASSUMES the failed
+            # obligation for the rest of the body - so every clause proved on this function is void:
+            # the failure counts for the function's `props:` and for the tags of all its clauses
             rec = fprops.get(body_fn)
             if rec:
                 tags.update(rec.get("props", []))
+            for c in meta.get("clauses", []):
+                if (c["src"], c["fn"]) == body_fn:
+                    tags.update(t for t in c["tags"] if re.fullmatch(r"C\d+", t))
         if body_fn:
             fns.append(body_fn[1])
         failures.append({"message": msg, "tags": sorted(tags), "dep_tags": sorted(dep_tags), "clauses": clause_ids,
